@@ -587,7 +587,13 @@ pub fn build(raw: &RawPackage) -> Package {
           0 => {
             let a = sl.s(&mut cx, i);
             let b = sl.body(&mut cx, i);
-            s.push_str(&format!("  constructor(x: {a}) {{{sup} this.#h0 = 2;{b} }}\n"));
+            if sh & 64 != 0 {
+              // a decorator on a plain constructor parameter
+              s.push_str(&format!("  constructor(@Reflect.metadata(\"p\", [1]) x: {a}) {{{sup} this.#h0 = 2;{b} }}\n"));
+              cx.rec.shapes.insert("decorated-constructor-parameter");
+            } else {
+              s.push_str(&format!("  constructor(x: {a}) {{{sup} this.#h0 = 2;{b} }}\n"));
+            }
           }
           1 => {
             let a = sl.s(&mut cx, i);
@@ -650,6 +656,15 @@ pub fn build(raw: &RawPackage) -> Package {
         {
           let p = sl.i_or(&mut cx, i, "number");
           s.push_str(&format!("  private pm(a: {p}): void {{ void a; }}\n"));
+        }
+        if sh & 128 != 0 {
+          // TypeScript-private accessors: annotated and not
+          let p = sl.i_or(&mut cx, i, "string");
+          s.push_str(&format!("  private get pg(): {p} {{ return null as any; }}\n  private set pg(v: {p}) {{ void v; }}\n"));
+          if sh & 256 != 0 {
+            s.push_str("  private get pu() { return 1; }\n  private static get ps2() { return [1]; }\n");
+          }
+          cx.rec.shapes.insert("ts-private-accessors");
         }
         if is_abstract {
           let a = sl.s(&mut cx, i);
